@@ -7,11 +7,13 @@ package main
 
 import (
 	"fmt"
+	"runtime"
 
 	"github.com/luraproject/lura/v2/config"
 	"github.com/luraproject/lura/v2/logging"
 	"github.com/luraproject/lura/v2/proxy"
 	"github.com/luraproject/lura/v2/sd"
+	"github.com/valyala/fastrand"
 
 	"verif/harness/internal/emit"
 )
@@ -74,44 +76,85 @@ func viaOf(kind string) int {
 	return 3
 }
 
-// one middleware instance built by the named constructor over a fixed list, M requests
-// through it (every request with its own path and query)
-func (g *gen) mwByName(c mwCtor, hs []string, M int, subKind string) {
+// withProcs runs f with GOMAXPROCS set to procs (sd.NewBalancer looks at it when a balancer is built)
+func withProcs(procs int, f func()) {
+	old := runtime.GOMAXPROCS(procs)
+	defer runtime.GOMAXPROCS(old)
+	f()
+}
+
+// one middleware instance built by the named constructor (with GOMAXPROCS = procs) over a
+// fixed list, M requests through it (every request with its own path and query).  The Coq
+// side looks the constructor up in the model's table and applies the oracle of the balancer
+// the model says it builds (round robin: every window fair; random: membership and share)
+func (g *gen) mwByName(c mwCtor, hs []string, M int, subKind string, procs int) {
 	var sub sd.Subscriber = sd.FixedSubscriber(hs)
 	if subKind == "func" {
 		sub = sd.SubscriberFunc(func() ([]string, error) { return hs, nil })
 	}
-	p := c.build(hs, sub)(nextRecorder)
+	var p proxy.Proxy
+	withProcs(procs, func() { p = c.build(hs, sub)(nextRecorder) })
 	obs := make([]res, M)
 	for i := range obs {
 		obs[i] = callMW(p, i)
 	}
 	t := newTbl()
-	var term string
-	switch c.kind {
-	case "rr":
-		// floor/ceil fairness of the hosts seen by the next proxy, over every window
-		term = t.wrap(emit.App("CSeqFixed", "1%nat", t.hosts(hs), "false", "0%Z", t.obs(obs), "0%Z"))
-	case "random":
-		term = t.wrap(emit.App("CShare", "true", t.hosts(hs), t.obs(obs)))
-	default:
-		reps := make([]report, M)
-		for i := range reps {
-			reps[i] = report{Hosts: hs}
-		}
-		term = t.wrap(emit.App("CSeqDyn", "3%nat", "false", "0%Z", stepsCoq(t, reps, obs), "0%Z"))
-	}
+	term := t.wrap(emit.App("CMwNamed", emit.Str(c.name), emit.Z(int64(procs)), boolCoq(subKind != "func"), t.hosts(hs), t.obs(obs)))
 	cnt := map[string]int{}
 	for _, o := range obs {
 		cnt[o.Kind+":"+o.Host]++
 	}
 	js := map[string]interface{}{"kind": "middleware-constructor", "constructor": c.name, "balancer_kind": c.kind, "subscriber": subKind,
-		"hosts": hs, "calls": M, "observed_counts": cnt}
+		"gomaxprocs": procs, "hosts": hs, "calls": M, "observed_counts": cnt}
 	if M <= 400 {
 		js["observed"] = resJS(obs)
 	}
 	g.w.Count("mw-constructor:" + c.name)
-	g.w.Add(term, js, "", fmt.Sprintf("MC|%s|%s|%d|%d", c.name, subKind, len(hs), M), len(hs) > 1)
+	g.w.Add(term, js, "", fmt.Sprintf("MC|%s|%s|%d|%d|%d", c.name, subKind, len(hs), M, procs), len(hs) > 1)
+}
+
+// the sd constructors themselves: which balancer was built (seen through the hooks) and
+// where a round robin one starts
+func (g *gen) ctorCase(which int, procs int, fixed bool, hs []string) {
+	var sub sd.Subscriber = sd.FixedSubscriber(hs)
+	if !fixed {
+		sub = sd.SubscriberFunc(func() ([]string, error) { return hs, nil })
+	}
+	var b sd.Balancer
+	withProcs(procs, func() {
+		switch which {
+		case 0:
+			b = sd.NewBalancer(sub)
+		case 1:
+			b = sd.NewRoundRobinLB(sub)
+		default:
+			b = sd.NewRandomLB(sub)
+		}
+	})
+	kind, start := 0, uint64(0)
+	if c, ok := sd.VerifC14Counter(b); ok {
+		kind, start = 1, c
+	} else if sd.VerifC14SetRand(b, fastrand.Uint32n) {
+		kind = 2
+	}
+	t := newTbl()
+	term := t.wrap(emit.App("CCtor", emit.Nat(which), emit.Z(int64(procs)), boolCoq(fixed), t.hosts(hs), emit.Nat(kind), u64(start)))
+	name := []string{"NewBalancer", "NewRoundRobinLB", "NewRandomLB"}[which]
+	js := map[string]interface{}{"kind": "sd-constructor", "constructor": name, "gomaxprocs": procs, "fixed_subscriber": fixed, "hosts": len(hs),
+		"observed_balancer": []string{"single-host", "round-robin", "random"}[kind], "initial_counter": fmt.Sprint(start)}
+	g.w.Count("sd-constructor:" + name)
+	g.w.Add(term, js, "", fmt.Sprintf("CT|%d|%d|%v|%d", which, procs, fixed, len(hs)), true)
+}
+
+func (g *gen) sdConstructors() {
+	for which := 0; which < 3; which++ {
+		for _, procs := range []int{1, 2, 16} {
+			for _, n := range []int{0, 1, 2, 3, 64} {
+				g.ctorCase(which, procs, true, hostList(n))
+				g.ctorCase(which, procs, false, hostList(n))
+			}
+		}
+	}
 }
 
 // the named constructor over a scripted dynamic subscriber
@@ -132,38 +175,47 @@ func (g *gen) mwByNameDyn(c mwCtor, reps []report) {
 
 func (g *gen) allMiddlewareConstructors() {
 	th := g.cfg.Thorough()
+	many := runtime.GOMAXPROCS(0)
+	rrSizes := []int{0, 1, 2, 3, 5, 7, 16, 64}
+	rndSizes := []int{1, 2, 8, 33}
+	if th {
+		rrSizes = []int{0, 1, 2, 3, 4, 5, 6, 7, 8, 11, 16, 23, 32, 47, 64}
+		rndSizes = []int{1, 2, 3, 5, 8, 16, 33, 64}
+	}
+	rrRuns := func(c mwCtor, procs int, sizes []int) {
+		for _, n := range sizes {
+			M := 3*n + 1
+			if M < 3 {
+				M = 3
+			}
+			g.mwByName(c, hostList(n), M, "fixed", procs)
+			if c.bySub && n > 0 {
+				g.mwByName(c, hostList(n), 2*n+3, "func", procs)
+			}
+		}
+	}
+	rndRuns := func(c mwCtor, procs int, sizes []int) {
+		for _, n := range sizes {
+			g.mwByName(c, hostList(n), 64*n, "fixed", procs)
+		}
+		g.mwByName(c, hostList(0), 3, "fixed", procs)
+		if c.bySub {
+			g.mwByName(c, hostList(5), 320, "func", procs)
+		}
+	}
 	for _, c := range mwCtors {
 		switch c.kind {
 		case "rr":
-			sizes := []int{0, 1, 2, 3, 5, 7, 16, 64}
-			if th {
-				sizes = []int{0, 1, 2, 3, 4, 5, 6, 7, 8, 11, 16, 23, 32, 47, 64}
-			}
-			for _, n := range sizes {
-				M := 3*n + 1
-				if M < 3 {
-					M = 3
-				}
-				g.mwByName(c, hostList(n), M, "fixed")
-				if c.bySub && n > 0 {
-					g.mwByName(c, hostList(n), 2*n+3, "func")
-				}
-			}
+			rrRuns(c, many, rrSizes)
+			rrRuns(c, 1, []int{2, 5})
 		case "random":
-			sizes := []int{1, 2, 8, 33}
-			if th {
-				sizes = []int{1, 2, 3, 5, 8, 16, 33, 64}
-			}
-			for _, n := range sizes {
-				g.mwByName(c, hostList(n), 64*n, "fixed")
-			}
-			if c.bySub {
-				g.mwByName(c, hostList(5), 320, "func")
-			}
+			rndRuns(c, many, rndSizes)
+			rndRuns(c, 1, []int{3})
 		default:
-			for _, n := range []int{0, 1, 2, 5, 64} {
-				g.mwByName(c, hostList(n), 2*n+3, "fixed")
-			}
+			// NewBalancer: round robin when GOMAXPROCS = 1, random otherwise
+			rrRuns(c, 1, []int{0, 1, 2, 3, 5, 16})
+			rndRuns(c, many, []int{1, 2, 8})
+			rndRuns(c, 2, []int{5})
 		}
 		if c.bySub {
 			nd := 4
@@ -175,6 +227,7 @@ func (g *gen) allMiddlewareConstructors() {
 			}
 		}
 	}
+	g.sdConstructors()
 }
 
 // ---------------------------------------------------------------------------------------
